@@ -24,6 +24,10 @@ pub enum Step {
     /// a deletion request by another author naming the i-th stored event: refused (InvalidDelete) after its bytes
     /// were appended
     RejectedDelete { of: u16 },
+    /// another thread stores events until the map grows and is held right after the remap ("es.grown.map");
+    /// meanwhile this thread looks stored events up (it either waits for the writer or gets a reference into the
+    /// mapping as it is now), then the writer goes on
+    ReadDuringGrowth { content_len: u32 },
 }
 
 #[derive(Clone, Debug, Serialize, Deserialize)]
@@ -83,6 +87,28 @@ fn place_blocker(addr: usize) -> Option<Blocker> {
     }
 }
 
+thread_local! {
+    /// set on a writer thread that is to be held at "es.grown.map": (tell the main thread, wait for it)
+    static HOLD: std::cell::RefCell<Option<(std::sync::mpsc::Sender<()>, std::sync::mpsc::Receiver<()>)>> = const { std::cell::RefCell::new(None) };
+}
+static HOOK_ONCE: std::sync::Once = std::sync::Once::new();
+
+fn install_hold_hook() {
+    HOOK_ONCE.call_once(|| {
+        pocket_db::verif::set_hook(Some(std::sync::Arc::new(|name: &'static str| {
+            if name == "es.grown.map" {
+                // held once: the first growth of the batch
+                let pair = HOLD.with(|h| h.borrow_mut().take());
+                if let Some((reached, resume)) = pair {
+                    if reached.send(()).is_ok() {
+                        let _ = resume.recv_timeout(std::time::Duration::from_secs(5));
+                    }
+                }
+            }
+        })));
+    });
+}
+
 fn addr_of(st: &Store, off: u64) -> Result<(usize, Vec<u8>), String> {
     match guard("Store::get_event_by_offset", || st.get_event_by_offset(off).map(|e| (e.as_bytes().as_ptr() as usize, e.as_bytes().to_vec()))) {
         Ok(Ok(x)) => Ok(x),
@@ -97,7 +123,7 @@ impl Prop for C15 {
         "C15"
     }
     fn rule(&self) -> String {
-        "Cases: sequences of 1..25 steps: store an event (from this or another thread), take a reference to an earlier event (by offset, by id, from a query) remembering its address and a copy of its bytes, or store filler events until the backing file has grown 1..3 more times, or remove a stored event (any, or the one stored last) or submit a deletion request that is refused after its bytes were appended - references taken before stay held. 30% of the sequences run in a directory on the block file system under the verification root (ext4 here), the others on tmpfs. In 80% of the cases one PROT_NONE page is mapped (MAP_FIXED_NOREPLACE) directly behind the current mapping before each store, so that growth cannot extend in place and a moving remap is forced deterministically instead of depending on address-space luck. Oracle after every step, for every held reference: a fresh get_event_by_offset of the same offset has the same address, and the fresh bytes equal the copy taken when the reference was obtained; the stale reference itself is never dereferenced. Non-trivial: >= 1 reference held across >= 1 growth.".into()
+        "Cases: sequences of 1..25 steps: store an event (from this or another thread), take a reference to an earlier event (by offset, by id, from a query) remembering its address and a copy of its bytes, or store filler events until the backing file has grown 1..3 more times, or remove a stored event (any, or the one stored last) or submit a deletion request that is refused after its bytes were appended - references taken before stay held; or (one step in 25) let another thread grow the map, hold it right after the remap and look stored events up from this thread meanwhile. 30% of the sequences run in a directory on the block file system under the verification root (ext4 here), the others on tmpfs. In 80% of the cases one PROT_NONE page is mapped (MAP_FIXED_NOREPLACE) directly behind the current mapping before each store, so that growth cannot extend in place and a moving remap is forced deterministically instead of depending on address-space luck. Oracle after every step, for every held reference: a fresh get_event_by_offset of the same offset has the same address, and the fresh bytes equal the copy taken when the reference was obtained; the stale reference itself is never dereferenced. Non-trivial: >= 1 reference held across >= 1 growth.".into()
     }
     fn assumptions(&self) -> Vec<String> {
         vec![
@@ -124,6 +150,7 @@ impl Prop for C15 {
             1 => (2u8..5, 8u8..40).prop_map(|(threads, per_thread)| Step::ConcurrentStores { threads, per_thread }),
             2 => prop_oneof![1 => any::<u16>(), 1 => Just(u16::MAX)].prop_map(|of| Step::Remove { of }),
             1 => any::<u16>().prop_map(|of| Step::RejectedDelete { of }),
+            1 => prop::sample::select(if cfg!(debug_assertions) { vec![300u32, 900, 2100] } else { vec![500_000u32, 2_000_000, 4_200_000] }).prop_map(|content_len| Step::ReadDuringGrowth { content_len }),
         ];
         (prop::collection::vec(step, 1..25), prop::bool::weighted(0.8), prop::bool::weighted(0.3))
             .prop_map(|(steps, force_move, disk)| Case { steps, force_move, disk })
@@ -392,6 +419,100 @@ impl Prop for C15 {
                             stored.push((off, j));
                         }
                         _ => {}
+                    }
+                }
+                Step::ReadDuringGrowth { content_len } => {
+                    if stored.is_empty() {
+                        continue;
+                    }
+                    install_hold_hook();
+                    // the writer's events
+                    let mut batch = Vec::new();
+                    for k in 0..(if cfg!(debug_assertions) { 12u32 } else { 3u32 }) {
+                        let ge = GenEvent {
+                            author: 2,
+                            kind: 1,
+                            created_at: 500 + k as u64,
+                            tags: vec![vec!["t".to_string(), format!("c15-rg-{stepno}-{k}")]],
+                            content_len: *content_len,
+                            idc: IdChoice::Hash,
+                            many: 0,
+                        };
+                        batch.push(w.intern(ge.to_model(), Some(&ge)));
+                    }
+                    let probes: Vec<(u64, usize)> = stored.iter().rev().take(3).cloned().collect();
+                    let len_before = w.map_len();
+                    let (reached_tx, reached_rx) = std::sync::mpsc::channel::<()>();
+                    let (resume_tx, resume_rx) = std::sync::mpsc::channel::<()>();
+                    let slot = current_slot();
+                    let (new_stored, reads, held_writer): (Vec<(u64, usize)>, Option<Vec<Result<(usize, Vec<u8>), String>>>, bool) = {
+                        let st = w.st();
+                        let owned = &w.owned;
+                        std::thread::scope(|scope| {
+                            let batch = &batch;
+                            let writer = scope.spawn(move || {
+                                adopt_slot(slot);
+                                HOLD.with(|h| *h.borrow_mut() = Some((reached_tx, resume_rx)));
+                                let mut done = Vec::new();
+                                for i in batch {
+                                    if let Ok(Ok(off)) = guard("Store::store_event", || st.store_event(&owned[*i])) {
+                                        done.push((off, *i));
+                                    }
+                                }
+                                HOLD.with(|h| *h.borrow_mut() = None);
+                                done
+                            });
+                            // wait until the writer is held right after a remap (or finishes without growing)
+                            let held_writer = reached_rx.recv_timeout(std::time::Duration::from_secs(3)).is_ok();
+                            let mut reads = None;
+                            if held_writer {
+                                let (tx, rx) = std::sync::mpsc::channel();
+                                let probes = &probes;
+                                let _reader = scope.spawn(move || {
+                                    adopt_slot(slot);
+                                    let r: Vec<Result<(usize, Vec<u8>), String>> = probes.iter().map(|(off, _)| addr_of(st, *off)).collect();
+                                    let _ = tx.send(r);
+                                });
+                                // the reader either answers at once or waits for a lock the writer holds
+                                reads = rx.recv_timeout(std::time::Duration::from_millis(150)).ok();
+                                let _ = resume_tx.send(());
+                                if reads.is_none() {
+                                    reads = rx.recv_timeout(std::time::Duration::from_secs(5)).ok();
+                                }
+                            }
+                            let done = writer.join().unwrap_or_default();
+                            (done, reads, held_writer)
+                        })
+                    };
+                    let grown = ((w.map_len().saturating_sub(len_before)) / if cfg!(debug_assertions) { 2048 } else { 4096 * 1024 }) as usize;
+                    if grown > 0 {
+                        w.growths += grown.min(8);
+                        w.grew = true;
+                    }
+                    for (off, i) in new_stored {
+                        let _ = w.offsets.insert(off, i);
+                        stored.push((off, i));
+                    }
+                    if held_writer {
+                        out.label("read-while-writer-held-after-remap");
+                        match reads {
+                            Some(rs) => {
+                                for ((off, i), r) in probes.iter().zip(rs.iter()) {
+                                    match r {
+                                        Ok((_, bytes)) if bytes == w.owned[*i].as_bytes() => {}
+                                        Ok(_) => {
+                                            out.fail("C15:reference-is-not-the-event", format!("step {stepno}: a lookup of offset {off} made while another thread was growing the map returned other bytes"));
+                                            return out;
+                                        }
+                                        Err(e) => {
+                                            out.fail(format!("C15:lookup-error:{e}"), format!("step {stepno}: offset {off}, looked up while another thread was growing the map"));
+                                            return out;
+                                        }
+                                    }
+                                }
+                            }
+                            None => out.label("inconclusive:reader-did-not-return"),
+                        }
                     }
                 }
                 Step::TakeRef { of, how } => {
